@@ -4,7 +4,6 @@ go 1.23.8
 
 require (
 	golang.org/x/tools v0.29.0
-	grol.io/grol v0.0.0
 )
 
 require (
@@ -12,4 +11,3 @@ require (
 	golang.org/x/sync v0.10.0 // indirect
 )
 
-replace grol.io/grol => /repo
